@@ -116,3 +116,15 @@ func vh_C05_front_enum_values_Q() {
 	symxAssert(strings.Contains(run.text, `case "a", `+strconv.Quote(vhC09EnumValues[n])+":"), "C05.front.enum-parameter-accepts-exactly-the-declared-values")
 	symxCover("C05.front.enum-switch-read")
 }
+
+// the verb of @Method is printed as a method name of the engine (engine.GET, engine.Get): whatever spelling the
+// validators let through has to name one
+var vhC09VerbSpellings = []string{"GET", "get", "Get", "POST", "post", "Delete", "patch", "PUT", "hEAD", "OPTIONS", "options"}
+
+func vh_C09_front_verb_spellings_Q() {
+	engine := symxChoice("engine", 5)
+	n := symxChoice("verb", len(vhC09VerbSpellings))
+	routes := []vhC09Route{{name: "Op", verb: vhC09VerbSpellings[n], path: "/op", result: 1}}
+	run, ok := vhC09Generate(routes, vhC09Config(engine, ""))
+	vhC09Finish(run, ok, "routes", engine)
+}
